@@ -237,13 +237,83 @@ pub fn plan_c01(tier: &str, seed: u64, kem_pairs: usize) -> Plan {
                 lines.push(format!("covers M0 K1 t:{} t:{}", h(&u), h(&e)));
             }
         }
+        // second phase: the same questions on the structure after edits (rename, delete + re-add, insertion in
+        // the middle of a hierarchy, store / load of the master key), made effective by an update
+        let n_edits = if attrs.is_empty() { 0 } else { 2 + rng.below(3) };
+        for k in 0..n_edits {
+            let di = rng.below(attrs.len());
+            let ordered = shape[di].0;
+            let dn = dim_names[di];
+            let pick_after = |rng: &mut SplitMix64, names: &Vec<String>| -> String {
+                if ordered && !names.is_empty() && rng.chance(2, 3) { let a: &String = rng.pick(&names[..]); h(a) } else { "-".into() }
+            };
+            match rng.below(4) {
+                0 if !attrs[di].is_empty() => {
+                    let ai = rng.below(attrs[di].len());
+                    let new = format!("R{k}");
+                    lines.push(format!("rename_attr M0 {} {} {}", h(dn), h(&attrs[di][ai]), h(&new)));
+                    attrs[di][ai] = new;
+                }
+                1 if attrs[di].len() >= 2 => {
+                    let ai = rng.below(attrs[di].len());
+                    let old = attrs[di].remove(ai);
+                    lines.push(format!("del_attr M0 {} {}", h(dn), h(&old)));
+                    let after = pick_after(&mut rng, &attrs[di]);
+                    let hint = if rng.chance(1, 3) { "h" } else { "c" };
+                    lines.push(format!("add_attr M0 {} {} {} {}", h(dn), h(&old), hint, after));
+                    attrs[di].push(old);
+                }
+                2 => {
+                    let new = format!("N{k}");
+                    let after = pick_after(&mut rng, &attrs[di]);
+                    let hint = if rng.chance(1, 3) { "h" } else { "c" };
+                    lines.push(format!("add_attr M0 {} {} {} {}", h(dn), h(&new), hint, after));
+                    attrs[di].push(new);
+                }
+                _ => lines.push("roundtrip M0".to_string()),
+            }
+        }
+        lines.push("update M0 K2".to_string());
+        if rng.chance(1, 2) {
+            lines.push("roundtrip M0".to_string());
+        }
+        let mut clauses2: Vec<Vec<String>> = vec![vec![]];
+        for (di, names) in attrs.iter().enumerate() {
+            let mut next = vec![];
+            for c in &clauses2 {
+                next.push(c.clone());
+                for a in names {
+                    let mut t = c.clone();
+                    t.push(format!("{}::{}", dim_names[di], a));
+                    next.push(t);
+                }
+            }
+            clauses2 = next;
+        }
+        clauses2.retain(|c| !c.is_empty());
+        let singles2: Vec<String> = std::iter::once("*".to_string()).chain(clauses2.iter().map(|c| c.join(" && "))).collect();
+        for p in &singles2 {
+            lines.push(format!("usk_rights M0 t:{}", h(p)));
+            lines.push(format!("enc_rights M0 t:{}", h(p)));
+        }
+        let n_users2 = (per / singles2.len() / 2).max(2);
+        for _ in 0..n_users2 {
+            let u = if clauses2.len() >= 2 && rng.chance(1, 2) {
+                format!("{} || {}", rng.pick(&clauses2).join(" && "), rng.pick(&clauses2).join(" && "))
+            } else {
+                rng.pick(&singles2).clone()
+            };
+            for e in &singles2 {
+                lines.push(format!("covers M0 K2 t:{} t:{}", h(&u), h(e)));
+            }
+        }
         cases.push(Case { expect: vec![], name: format!("c01-shape{si}"), lines });
     }
     Plan {
         per_line: false,
         cases,
         exhaustive: true,
-        rule: format!("every structure shape with <= {max_dims} dimensions (anarchy or hierarchy) of 1..3 attributes (random hints and hierarchy insertion orders); on each, every policy with one clause (at most one attribute per dimension) and '*', and all (or a sample of) two-clause policies: rights of user keys and of encapsulations compared as sets between implementation and model; plus sampled (user policy, encryption policy) pairs where the real keygen/encaps/decaps verdict is compared with the name-level cover relation of the Lean spec; distinct = distinct canonical traces per structure"),
+        rule: format!("every structure shape with <= {max_dims} dimensions (anarchy or hierarchy) of 1..3 attributes (random hints and hierarchy insertion orders); on each, every policy with one clause (at most one attribute per dimension) and '*', and all (or a sample of) two-clause policies: rights of user keys and of encapsulations compared as sets between implementation and model; plus sampled (user policy, encryption policy) pairs where the real keygen/encaps/decaps verdict is compared with the name-level cover relation of the Lean spec; then 2-4 random edits (rename, delete + re-add, insertion at a random rank, store / load of the master key) and an update, and the same rights and cover questions on the edited structure; distinct = distinct canonical traces per structure"),
     }
 }
 
